@@ -55,6 +55,8 @@ Proof.
   destruct sc, out; try discriminate H.
   destruct (nth_error buf (nth n0 pos 0)); try discriminate H. inversion H. reflexivity.
 Qed.
+Lemma reads0_mattack {A} (o : A) n : reads0 (mattack o n).
+Proof. reads0_tac. Qed.
 Lemma reads0_mcycle {A} : reads0 (@mcycle A).
 Proof. reads0_tac. Qed.
 Lemma reads0_mzcross {A} sgn : reads0 (@mzcross A sgn).
@@ -103,6 +105,8 @@ Proof.
   - apply one_src_safe; [apply reads0_mzcross|intros _; apply mzcross_safe].
   - apply one_src_safe; [apply reads0_omap, reads0_mbatched|intros _; apply safe_omap, mbatched_safe; lia].
   - apply mresample_tv_safe; unfold rs_one, rs_stp; lia.
+  - apply one_src_safe; [apply reads0_mattack|intros _; apply mattack_safe].
+  - apply mraise_safe.
 Qed.
 
 (* ---------------------------------------------------------------- monotone needs *)
@@ -140,6 +144,11 @@ Proof.
   pose proof (mono_resample n0 idx0 thr stp one H1 Hs a b H). destruct (c 0), (c 1); lia.
 Qed.
 
+Lemma mono_attack n : mono (need_attack n).
+Proof. intros a b H. unfold need_attack. destruct a, b; lia. Qed.
+Lemma mono_zero : mono (fun _ : nat => 0).
+Proof. intros a b _. lia. Qed.
+
 Lemma sneedc_mono g c : stage_ok g -> mono (sneedc g c).
 Proof.
   destruct g; intro Hok; cbn [sneedc]; cbn [stage_ok] in Hok; try contradiction;
@@ -147,7 +156,8 @@ Proof.
     first [apply mono_id | apply mono_zipc | apply mono_skip | apply mono_limit | apply mono_chainc
           | apply mono_pad | apply mono_blocks | apply mono_ola | apply need_tee_mono
           | apply mono_resample; unfold rs_one, rs_stp; lia
-          | apply mono_resample_tv; unfold rs_one, rs_stp; lia].
+          | apply mono_resample_tv; unfold rs_one, rs_stp; lia
+          | apply mono_attack | apply mono_zero].
 Qed.
 
 (* ---------------------------------------------------------------- pipelines of any depth *)
@@ -190,13 +200,13 @@ Proof.
   apply safe_run. apply pmach_safe; assumption.
 Qed.
 
-Theorem model_constructs_lazily ds : ctrace false ds = [].
+Theorem model_constructs_lazily ds : ctrace CLazy ds = [].
 Proof. reflexivity. Qed.
 
 (* ---------------------------------------------------------------- exact needs / productivity *)
 Definition stage_live (g : stage) : Prop :=
   match g with
-  | GMealy | GSkip _ | GPad _ _ | GPar _ | GCycle | GZcross _ => True
+  | GMealy | GSkip _ | GPad _ _ | GPar _ | GCycle | GZcross _ | GAttack _ => True
   | GZip _ => True
   | GBlocks size hop => 1 <= size /\ 1 <= hop
   | GBatched n => 1 <= n
@@ -215,6 +225,7 @@ Definition sbound (g : stage) : nat :=
   | GBlocks size hop => size + hop
   | GBatched n => n
   | GResample order old new => rs_bound (rs_n0 order) (rs_stp old) (rs_one new)
+  | GAttack _ => 2
   | _ => 0
   end.
 
@@ -246,6 +257,7 @@ Proof.
   - apply mcycle_live; exact C0.
   - apply mzcross_live; exact C0.
   - apply live_omap. apply mbatched_live; try lia; exact C0.
+  - apply mattack_live; exact C0.
 Qed.
 
 Lemma need_tee_zero n sched : need_tee n sched 0 = 0.
@@ -286,4 +298,25 @@ Proof.
   intros C0 Hf Hr. unfold pneedc, pmach.
   apply (fold_live c rest (smach first) (sneedc first c) (sbound first));
     [apply smach_live; assumption|apply sneedc_zero|exact Hr].
+Qed.
+
+(* ---------------------------------------------------------------- construction *)
+Lemma ctake_ok src d : forall n p,
+  forallb (fun e => match e with ER i | EE i => Nat.eqb i src | _ => true end) (ctake src n d p) = true /\
+  List.length (filter (fun e => match e with ER _ => true | _ => false end) (ctake src n d p)) <= n.
+Proof.
+  induction n as [|n IH]; intro p; [split; [reflexivity|cbn; lia]|].
+  cbn [ctake]. destruct (src_resp d p).
+  - destruct (IH (S p)) as [A B]. cbn. rewrite Nat.eqb_refl, A. split; [reflexivity|lia].
+  - cbn. rewrite Nat.eqb_refl. split; [reflexivity|lia].
+  - cbn. rewrite Nat.eqb_refl. split; [reflexivity|lia].
+Qed.
+
+(* every construction of the model except the eager combinatoric wrappers satisfies the checker: nothing is
+   touched, or exactly the documented prefix of the parameter source *)
+Theorem model_ctor_ok ck ds : ck <> CEager -> ctor_ok ck (ctrace ck ds) = true.
+Proof.
+  destruct ck as [| |src n|e]; intro H; try reflexivity; [contradiction|].
+  cbn [ctor_ok ctrace]. destruct (ctake_ok src (nth src ds (SFin 0)) n 0) as [A B].
+  rewrite A. apply Nat.leb_le. exact B.
 Qed.
